@@ -50,7 +50,10 @@ func c03Sequential(r *core.Run) {
 		rng := r.Rng(sig)
 		world := lnmodel.NewWorld(r.Seed*409 + int64(h))
 		world.AutoDeliver = h%2 == 1 // odd histories: notifications are delivered as soon as the invoice settles
-		env, err := menv.New(world, "m0", core.TempDir("c03s"), menv.Opts{})
+		// a third of the histories each run with gonuts' CLN / LND adapter and a fake node between the mint
+		// and the model; there some invoices lapse unpaid (status "expired" / CANCELED)
+		backend := map[int]string{2: "cln", 1: "lnd"}[h%3]
+		env, err := menv.New(world, "m0", core.TempDir("c03s"), menv.Opts{Backend: backend})
 		if err != nil {
 			r.Violate("setup", err.Error(), sig, nil)
 			return
@@ -87,6 +90,20 @@ func c03Sequential(r *core.Run) {
 				}
 				if rng.Intn(3) == 0 {
 					s.Mint(q, "exact") // unpaid
+				}
+				if backend != "" && rng.Intn(4) == 0 {
+					// the invoice lapses unpaid: polls keep saying UNPAID, minting stays refused
+					if backend == "cln" {
+						env.CLN.Expire(q.Hash)
+					} else {
+						env.LND.Cancel(q.Hash)
+					}
+					r.Count(backend+"_invoices_lapsed_unpaid", 1)
+					if st, err := env.MintQuoteState(q.Id); err == nil && st.State.String() != "UNPAID" {
+						r.Violate("seq:expired-unpaid-invoice-reported:"+st.State.String(), "a quote whose invoice lapsed unpaid is reported "+st.State.String(), sig, s.Tail(8))
+					}
+					s.Mint(q, "exact")
+					continue
 				}
 				s.PayMintQuote(q)
 				if world.AutoDeliver {
